@@ -1,11 +1,98 @@
-(* C12 -- placeholder until the projection theorem is integrated *)
+(* C12: a projection returns exactly the requested part of each document, nothing else.
+   Property statements only; the proofs are in Proofs/C12*.v. *)
 From Coq Require Import ZArith List String Bool.
-From Verif Require Import Value ProjectSpec.
+From Verif Require Import Value PyEq BsonOrder Path Filter Update Project Coll ProjectSpec.
+From Verif.Proofs Require Import C12Proofs.
 Import ListNotations.
 Open Scope Z_scope.
 Open Scope string_scope.
+Open Scope list_scope.
+
 Example C12_spec_nontrivial :
   project_spec (VDoc [("_id", VInt 1); ("a", VDoc [("b", VInt 2); ("c", VInt 3)]); ("d", VInt 4)])
                (VDoc [("a.b", VInt 1)])
   = Some (VDoc [("_id", VInt 1); ("a", VDoc [("b", VInt 2)])]).
+Proof. vm_compute. reflexivity. Qed.
+
+(* 1. Whenever the specification decides what the projection of d by p is (project_spec) and
+   (d, p) is inside the guard (no nested path over a scalar / non-document array element, no
+   $slice [skip, limit] window reaching before the start of the array), _copy_only_fields
+   succeeds and returns the specified document, up to the order of the top-level keys.
+   d and p are Python dicts: duplicate-free keys (for p this is a real hypothesis of the
+   statement, see Refuted/C12.v). *)
+Theorem C12_projection : forall d p s,
+  project_spec d p = Some s -> c12_reasons d p = 0 ->
+  wf_value d = true -> wf_value p = true ->
+  exists out, copy_only_fields d (Some p) = Ok out /\ doc_eq_top s out = true.
+Proof. exact c12_projection. Qed.
+Print Assumptions C12_projection.
+
+(* 2. A projection never changes which documents are returned, nor their order: the i-th
+   result is the projection of the i-th document. *)
+Theorem C12_same_documents : forall proj l outs,
+  project_all proj l = Ok outs ->
+  List.length outs = List.length l /\
+  forall i d o, nth_error l i = Some d -> nth_error outs i = Some o ->
+                copy_only_fields d proj = Ok o.
+Proof. exact c12_same_documents. Qed.
+Print Assumptions C12_same_documents.
+
+(* 3. Nothing is invented: for an inclusion / exclusion without operator fields, every
+   top-level field of the result is a field of d with the same key, and with the same value
+   unless a nested path of the specification descends into it. *)
+Theorem C12_nothing_invented : forall dfs p ps s outfs,
+  project_spec (VDoc dfs) p = Some s -> c12_reasons (VDoc dfs) p = 0 ->
+  wf_value (VDoc dfs) = true -> wf_value p = true ->
+  read_spec p = Some ps -> ps_ops ps = [] ->
+  copy_only_fields (VDoc dfs) (Some p) = Ok (VDoc outfs) ->
+  forall k v, assoc k outfs = Some v ->
+    exists v', assoc k dfs = Some v' /\
+               (below k (ps_paths ps) = [] \/ names_whole (below k (ps_paths ps)) = true -> v' = v).
+Proof. exact c12_nothing_invented. Qed.
+Print Assumptions C12_nothing_invented.
+
+(* ---- the hypotheses are satisfiable on non-trivial inputs ---- *)
+Definition c12_d : value :=
+  VDoc [("_id", VInt 1); ("a", VDoc [("b", VInt 2); ("c", VInt 3)]); ("d", VInt 4);
+        ("e", VArr [VInt 1; VInt 2; VInt 3; VInt 4]);
+        ("f", VArr [VDoc [("x", VInt 1); ("y", VInt 2)]; VDoc [("y", VInt 5)]])].
+(* inclusion with nested paths through a sub-document and an array, and a $slice window *)
+Definition c12_p_incl : value :=
+  VDoc [("a.b", VInt 1); ("f.y", VBool true); ("e", VDoc [("$slice", VArr [VInt (-3); VInt 2])])].
+(* exclusion with nested paths, _id suppressed *)
+Definition c12_p_excl : value :=
+  VDoc [("a.b", VInt 0); ("f.y", VBool false); ("_id", VInt 0)].
+(* inclusion with $elemMatch *)
+Definition c12_p_em : value :=
+  VDoc [("d", VInt 1); ("f", VDoc [("$elemMatch", VDoc [("y", VInt 5)])])].
+
+Example C12_projection_hyps_incl :
+  project_spec c12_d c12_p_incl
+  = Some (VDoc [("_id", VInt 1); ("a", VDoc [("b", VInt 2)]); ("e", VArr [VInt 2; VInt 3]);
+                ("f", VArr [VDoc [("y", VInt 2)]; VDoc [("y", VInt 5)]])]) /\
+  c12_reasons c12_d c12_p_incl = 0 /\ wf_value c12_d = true /\ wf_value c12_p_incl = true /\
+  copy_only_fields c12_d (Some c12_p_incl)
+  = Ok (VDoc [("a", VDoc [("b", VInt 2)]);
+              ("f", VArr [VDoc [("y", VInt 2)]; VDoc [("y", VInt 5)]]);
+              ("_id", VInt 1); ("e", VArr [VInt 2; VInt 3])]).
+Proof. vm_compute. repeat split; reflexivity. Qed.
+
+Example C12_projection_hyps_excl :
+  project_spec c12_d c12_p_excl
+  = Some (VDoc [("a", VDoc [("c", VInt 3)]); ("d", VInt 4);
+                ("e", VArr [VInt 1; VInt 2; VInt 3; VInt 4]);
+                ("f", VArr [VDoc [("x", VInt 1)]; VDoc []])]) /\
+  c12_reasons c12_d c12_p_excl = 0 /\ wf_value c12_p_excl = true /\
+  (exists ps, read_spec c12_p_excl = Some ps /\ ps_ops ps = []).
+Proof. vm_compute. repeat split; try reflexivity. eexists. split; reflexivity. Qed.
+
+Example C12_projection_hyps_elem_match :
+  project_spec c12_d c12_p_em
+  = Some (VDoc [("_id", VInt 1); ("d", VInt 4); ("f", VArr [VDoc [("y", VInt 5)]])]) /\
+  c12_reasons c12_d c12_p_em = 0 /\ wf_value c12_p_em = true.
+Proof. vm_compute. repeat split; reflexivity. Qed.
+
+Example C12_same_documents_hyps :
+  project_all (Some (VDoc [("d", VInt 1); ("_id", VInt 0)])) [c12_d; VDoc [("d", VInt 9)]; VDoc []]
+  = Ok [VDoc [("d", VInt 4)]; VDoc [("d", VInt 9)]; VDoc []].
 Proof. vm_compute. reflexivity. Qed.
